@@ -72,6 +72,10 @@ pub fn alphabet() -> Vec<Call> {
             v.push(Call::ForAttrs(p.into(), vec![A1.into()], rec));
         }
     }
+    // the child of P: a type with two ancestors that can both carry recursive registrations
+    v.push(Call::ForDerives(C.into(), vec![D2.into()], true));
+    v.push(Call::ForAttrs(C.into(), vec![A2.into()], true));
+    v.push(Call::ForDerives(C.into(), vec![D1.into()], false));
     for (s, t) in sub_args() {
         v.push(Call::Insert(s.clone(), t.clone()));
         v.push(Call::InsertIfAbsent(s.clone(), t.clone()));
